@@ -152,7 +152,7 @@ let () =
             if p 6 <> q 4 then fail id "SPEC" "covers_coveredby_dual" (Printf.sprintf "CoveredBy(a,b)=%c Covers(b,a)=%c" (p 6) (q 4));
             List.iter (fun i -> if p i <> q i then
                           fail id "SPEC" "symmetric_predicate" (Printf.sprintf "%s(a,b)=%c (b,a)=%c" pred_names.(i) (p i) (q i)))
-              [0; 1; 2; 8];
+              [0; 1; 2; 7; 8];
             (* Disjoint = not Intersects: no point of the definitional arrangement is in both *)
             let inter = List.exists (fun (w, _) -> inG a w && inG b w) (pair_witnesses a b) in
             if (p 1 = '1') = inter then
@@ -164,7 +164,12 @@ let () =
                   fail id "SPEC" "predicate_pattern" (Printf.sprintf "%s=%c documented patterns on %s give %b" pred_names.(i) (p i) dab want) in
               chk 0 ["T*F**FFF*"]; chk 1 ["FF*FF****"]; chk 2 ["FT*******"; "F**T*****"; "F***T****"];
               chk 3 ["T*****FF*"]; chk 4 ["T*****FF*"; "*T****FF*"; "***T**FF*"; "****T*FF*"];
-              chk 5 ["T*F**F***"]; chk 6 ["T*F**F***"; "*TF**F***"; "**FT*F***"; "**F*TF***"]
+              chk 5 ["T*F**F***"]; chk 6 ["T*F**F***"; "*TF**F***"; "**FT*F***"; "**F*TF***"];
+              (* Crosses / Overlaps: the OGC dimension cases, with the dimension of the non-empty part *)
+              let da = int_of_nat (dimension_ie a) and db = int_of_nat (dimension_ie b) in
+              chk 7 (if da < db then ["T*T******"] else if da > db then ["T*****T**"]
+                     else if da = 1 then ["0********"] else []);
+              chk 8 (if da <> db then [] else if da = 1 then ["1*T***T**"] else ["T*T***T**"])
             end;
             for i = 0 to 8 do if p i = '1' then count ("true_" ^ pred_names.(i)) done
           end;
